@@ -8,11 +8,15 @@ mod util;
 mod e_merge;
 mod e_lcov;
 mod e_markers;
+mod e_report;
+mod e_escape;
 
 fn dispatch(engine: &str, case: &Value) -> Value {
     match engine {
         "merge" => e_merge::run(case),
         "lcov" => e_lcov::run(case),
+        "escape" => e_escape::run(case),
+        "report" => e_report::run(case),
         "markers" => e_markers::run(case),
         "parse" => e_lcov::run_parse(case),
         "lcov_rt" => e_lcov::run_rt(case),
